@@ -29,6 +29,7 @@ type c13Op struct {
 	Mode string `json:"mode,omitempty"` // "" = SendPID, "alias" = SendAlias (wire byte from alias ID[1]), "name" = SendProcessID (wire byte from the sender)
 	L    int    `json:"l,omitempty"`
 	N    int    `json:"n,omitempty"`
+	Z    int    `json:"z,omitempty"` // 1..3: a large message sent compressed (gzip, lzw, zlib): travels in a protoMessageZ envelope
 }
 
 type c13Scenario struct {
@@ -124,7 +125,11 @@ func c13gen(rng *Rng, withPoolChange bool, stall bool) c13Scenario {
 		case k < 60 || inflight == 0:
 			keep := !rng.Chance(1, 25)
 			ti := rng.Intn(nt)
-			sc.Ops = append(sc.Ops, c13Op{Kind: "send", A: ss[rng.Intn(ns)], B: ts[ti], Keep: keep, Mode: modes[ti]})
+			z := 0
+			if rng.Chance(1, 4) {
+				z = 1 + rng.Intn(3)
+			}
+			sc.Ops = append(sc.Ops, c13Op{Kind: "send", A: ss[rng.Intn(ns)], B: ts[ti], Keep: keep, Mode: modes[ti], Z: z})
 			inflight++
 		case k < 90:
 			sc.Ops = append(sc.Ops, c13Op{Kind: "release", L: rng.Intn(links), N: 1 + rng.Intn(4)})
@@ -234,15 +239,21 @@ func c13run(c *Ctx, sc c13Scenario) c13Out {
 			}
 			var err error
 			mo := gen.MessageOptions{KeepNetworkOrder: op.Keep}
+			var payload any = seq
+			if op.Z > 0 {
+				mo.Compression = gen.Compression{Enable: true, Threshold: 100,
+					Type: []gen.CompressionType{gen.CompressionTypeGZIP, gen.CompressionTypeLZW, gen.CompressionTypeZLIB}[op.Z-1]}
+				payload = k5bigPayload(seq)
+			}
 			dstKey := op.B // the id word the wire byte is derived from
 			switch op.Mode {
 			case "alias":
-				err = p.ca.SendAlias(from, gen.Alias{Node: p.b.name, Creation: creB, ID: [3]uint64{7, op.B, 0}}, mo, seq)
+				err = p.ca.SendAlias(from, gen.Alias{Node: p.b.name, Creation: creB, ID: [3]uint64{7, op.B, 0}}, mo, payload)
 			case "name":
-				err = p.ca.SendProcessID(from, gen.ProcessID{Node: p.b.name, Name: gen.Atom(fmt.Sprintf("n%d", op.B))}, mo, seq)
+				err = p.ca.SendProcessID(from, gen.ProcessID{Node: p.b.name, Name: gen.Atom(fmt.Sprintf("n%d", op.B))}, mo, payload)
 				dstKey = op.A // SendProcessID: "use the same order for the peer"
 			default:
-				err = p.ca.SendPID(from, to, mo, seq)
+				err = p.ca.SendPID(from, to, mo, payload)
 			}
 			keep := 0
 			if op.Keep {
